@@ -2,7 +2,7 @@
    Statements + `exact` only. *)
 From Coq Require Import Reals List Bool Arith ZArith.
 From Coquelicot Require Import Complex.
-From QV Require Import Sem Mat2 Toff2 Chain Vchain RelPhase McxModel McxPlaced LinearMcx McxMulti Cvoqram GenLib Majority Gen_majority MajorityGen.
+From QV Require Import Sem Mat2 Toff2 Chain Vchain RelPhase McxModel McxPlaced LinearMcx McxMulti Cvoqram GenLib Majority Gen_majority MajorityGen IrProps QdmcuModel.
 Import ListNotations.
 Open Scope nat_scope.
 
@@ -91,3 +91,17 @@ Print Assumptions C05_majority_degrees.
 (* non-vacuity: the degree list the unrepaired source produced at n = 19 is refuted by weight 12 *)
 Example ex_old_list_refuted : parity_at [10; 16]%nat 12 = false /\ (19 <=? 2 * 12)%nat = true.
 Proof. vm_compute. auto. Qed.
+
+(* LinearMcx, exact variant: every k >= 1 (including the small-k dispatch on Qiskit's mcx) and every control pattern *)
+Theorem C05_linear_mcx_all : forall k pat, (1 <= k)%nat -> forall psi b,
+  srun (linear_mcx k pat false) psi b = psi (if pmatch pat k b then flipq k b else b).
+Proof. exact lm_exact. Qed.
+Print Assumptions C05_linear_mcx_all.
+
+(* LinearMcx, action_only variant: it differs from the exact gate by an invertible circuit Cl that acts on the control qubits only,
+   so it acts as the exact multi-controlled X on the target and restores nothing else: exact = action_only followed by Cl *)
+Theorem C05_linear_mcx_action_only : forall k pat, (1 <= k)%nat ->
+  exists Cl : list sgate, (forall g p, In g Cl -> In p (sq g) -> (p < k)%nat) /\ Forall swf Cl /\
+  forall psi, srun (linear_mcx k pat false) psi = srun Cl (srun (linear_mcx k pat true) psi).
+Proof. intros k pat Hk. exact (lm_split k pat Hk). Qed.
+Print Assumptions C05_linear_mcx_action_only.
